@@ -33,17 +33,18 @@ type AssertionTimes struct {
 
 // Case is one response with its instants placed relative to the boundaries.
 type Case struct {
-	DelayNs int64            `json:"delay_ns"` // saml.MaxIssueDelay
-	SkewNs  int64            `json:"skew_ns"`  // saml.MaxClockSkew
-	NowSec  int64            `json:"now_sec"`
-	NowNsec int64            `json:"now_nsec"`
-	Layout  string           `json:"layout"` // resp | assert | both
-	Entry   string           `json:"entry"`  // xml | post
-	Lex     string           `json:"lex"`    // lib | zone | frac | zoneless | subms
-	SubNs   int64            `json:"sub_ns,omitempty"`
-	NoDest  bool             `json:"no_dest,omitempty"` // the Response carries no Destination (allowed when it is unsigned)
-	Resp    int64            `json:"resp"`              // response IssueInstant margin
-	Asserts []AssertionTimes `json:"asserts"`
+	DelayNs  int64            `json:"delay_ns"` // saml.MaxIssueDelay
+	SkewNs   int64            `json:"skew_ns"`  // saml.MaxClockSkew
+	NowSec   int64            `json:"now_sec"`
+	NowNsec  int64            `json:"now_nsec"`
+	Layout   string           `json:"layout"` // resp | assert | both
+	Entry    string           `json:"entry"`  // xml | post
+	Lex      string           `json:"lex"`    // lib | zone | frac | zoneless | subms
+	SubNs    int64            `json:"sub_ns,omitempty"`
+	NoDest   bool             `json:"no_dest,omitempty"`             // the Response carries no Destination (allowed when it is unsigned)
+	AllowIDP bool             `json:"allow_idp_initiated,omitempty"` // windows must hold whether or not IdP-initiated login is allowed
+	Resp     int64            `json:"resp"`                          // response IssueInstant margin
+	Asserts  []AssertionTimes `json:"asserts"`
 }
 
 const (
@@ -169,7 +170,7 @@ func check(c Case) pbt.Result {
 	if err != nil {
 		return pbt.Result{Err: "harness: cannot build message: " + err.Error()}
 	}
-	sp := spkit.NewSP(spkit.Config{Trust: "meta1"})
+	sp := spkit.NewSP(spkit.Config{Trust: "meta1", AllowIDPInit: c.AllowIDP})
 	var o spkit.Outcome
 	if c.Entry == "post" {
 		o = spkit.ParsePOST(sp, doc, []string{"id-req"}, spkit.SPACS)
@@ -333,6 +334,7 @@ func gen(t *rapid.T) Case {
 		c.SubNs = rapid.Int64Range(-499_999, 499_999).Draw(t, "subns")
 	}
 	c.NoDest = c.Layout == "assert" && rapid.IntRange(0, 2).Draw(t, "nodest") == 0
+	c.AllowIDP = rapid.IntRange(0, 3).Draw(t, "allowidp") == 0
 	if rapid.Bool().Draw(t, "stdtol") {
 		tol := rapid.SampledFrom(tolerances).Draw(t, "tol")
 		c.DelayNs, c.SkewNs = tol[0], tol[1]
@@ -386,6 +388,7 @@ func enumLattice(tier string, emit func(Case)) {
 										}
 										c := Case{DelayNs: tol[0], SkewNs: tol[1], NowSec: fix.Epoch.Unix() + int64(ti), NowNsec: 0, Layout: layout, Entry: []string{"xml", "post"}[li], Lex: "lib", Resp: r}
 										c.NoDest = layout == "assert" && (idx/stride)%2 == 1
+										c.AllowIDP = (idx/stride)%3 == 1
 										varied := AssertionTimes{Issue: is, NotBefore: nb, NotAfter: na, Confs: []int64{cf}, Encrypted: enc}
 										good := AssertionTimes{Issue: far, NotBefore: far, NotAfter: far, Confs: []int64{far}, Encrypted: enc}
 										switch shape {
